@@ -61,6 +61,7 @@ type Interp struct {
 	MaybeNil    func(key string) bool // symbolic pointers that may be nil (dereference partitions on nil-ness)
 	ForgetAll   bool                  // at a repeated loop-header arrival forget every atom decided inside the loop (walker mode)
 	ResetHook   func()                // called at the start of every trace
+	Pinned      []*Cell               // client cells returned by models: restored to their initial content before every trace
 	journal     []journalEntry
 	Variant     func(key string) bool // keys that denote a different value in every loop iteration
 	invCount    map[*ssa.Function]int
@@ -147,7 +148,11 @@ func constGlobals(p *Prog) map[*ssa.Global]AVal {
 func (in *Interp) Explore(fn *ssa.Function, args []AVal, maxTraces int) []Trace {
 	var out []Trace
 	in.decisions, in.maxes = nil, nil
+	// every trace starts from the same memory: cells handed in by the client (through the arguments or
+	// pinned because a model returns them) are put back to their initial content before each run
+	snaps := snapshotCells(args, in.Pinned)
 	for {
+		restoreCells(snaps)
 		tr := in.runOnce(fn, args)
 		out = append(out, tr)
 		if len(out) >= maxTraces {
@@ -250,6 +255,78 @@ func (in *Interp) Emit(kind string, site ssa.Instruction, args ...AVal) {
 		e.Fn = in.stack[len(in.stack)-1]
 	}
 	in.events = append(in.events, e)
+}
+
+type cellSnap struct {
+	c      *Cell
+	v      AVal
+	elems  []*Cell
+	fields map[int]*Cell
+}
+
+// snapshotCells records the content of every cell reachable from the given values and cells.
+func snapshotCells(args []AVal, pinned []*Cell) []cellSnap {
+	var out []cellSnap
+	seen := map[*Cell]bool{}
+	var visitV func(v AVal)
+	var visitC func(c *Cell)
+	visitC = func(c *Cell) {
+		if c == nil || seen[c] || c.ID < 0 {
+			return
+		}
+		seen[c] = true
+		sn := cellSnap{c: c, v: c.V, elems: append([]*Cell(nil), c.Elems...)}
+		if c.Fields != nil {
+			sn.fields = map[int]*Cell{}
+			for k, f := range c.Fields {
+				sn.fields[k] = f
+			}
+		}
+		out = append(out, sn)
+		visitV(c.V)
+		for _, e := range c.Elems {
+			visitC(e)
+		}
+		for _, f := range c.Fields {
+			visitC(f)
+		}
+	}
+	visitV = func(v AVal) {
+		switch x := v.(type) {
+		case Ptr:
+			visitC(x.C)
+		case Slc:
+			visitC(x.Arr)
+		case Ifc:
+			visitV(x.V)
+		case Tup:
+			for _, e := range x.E {
+				visitV(e)
+			}
+		}
+	}
+	for _, a := range args {
+		visitV(a)
+	}
+	for _, c := range pinned {
+		visitC(c)
+	}
+	return out
+}
+
+func restoreCells(snaps []cellSnap) {
+	for _, sn := range snaps {
+		sn.c.V = sn.v
+		sn.c.Elems = append(sn.c.Elems[:0:0], sn.elems...)
+		if sn.fields == nil {
+			sn.c.Fields = nil
+		} else {
+			sn.c.Fields = map[int]*Cell{}
+			for k, f := range sn.fields {
+				sn.c.Fields[k] = f
+			}
+		}
+	}
 }
 
 // Choose decides an n-ary atom (once per trace).
